@@ -419,3 +419,75 @@ def attrs_definite_in_constructor(ck, rule, mod, qual, max_atoms=10):
         ck.ok(rule, mod, fn, '%s: %d attribute reads x %d assignments of %d conditions' % (qual, n, 2 ** len(atoms), len(atoms)),
               'every read of an instance attribute is preceded by a store for every assignment of the branch conditions')
     return n
+
+
+# ---------------------------------------------------------------------------
+# undefined global names (symtable): a name read in a function that is bound
+# nowhere - not in the function, not in an enclosing scope, not at module
+# level (def/class/assignment/import/for/with/except), not a builtin -
+# raises NameError when the statement executes.
+
+def undefined_names(mod):
+    """[(name, lineno, function qualname)] for reads of global names that the
+    module never binds (python sources only)."""
+    import builtins
+    import symtable
+    if mod.kind != 'py':
+        return []
+    try:
+        top = symtable.symtable(mod.src, mod.rel, 'exec')
+    except SyntaxError:
+        return []
+    module_names = set()
+    for s in top.get_symbols():
+        if s.is_assigned() or s.is_imported() or s.is_namespace() or s.is_parameter():
+            module_names.add(s.get_name())
+    # names bound by `global x` assignments inside functions
+    def globals_assigned(t):
+        for ch in t.get_children():
+            for s in ch.get_symbols():
+                if s.is_declared_global() and s.is_assigned():
+                    module_names.add(s.get_name())
+            globals_assigned(ch)
+    globals_assigned(top)
+    star = any(isinstance(n, ast.ImportFrom) and any(a.name == '*' for a in n.names) for n in ast.walk(mod.tree))
+    if star:
+        return []           # cannot know what a star import binds
+    known = module_names | set(dir(builtins)) | {'__file__', '__name__', '__doc__', '__package__', '__spec__', '__builtins__', '__class__'}
+    out = []
+
+    def walk(t, qual):
+        for ch in t.get_children():
+            q = (qual + '.' if qual else '') + ch.get_name()
+            if ch.get_type() in ('function', 'class'):
+                for s in ch.get_symbols():
+                    if s.is_referenced() and s.is_global() and not s.is_assigned() and s.get_name() not in known:
+                        out.append((s.get_name(), ch.get_lineno(), q))
+            walk(ch, q)
+    walk(top, '')
+    # module-level reads
+    for s in top.get_symbols():
+        if s.is_referenced() and not (s.is_assigned() or s.is_imported() or s.is_namespace()) and s.get_name() not in known:
+            out.append((s.get_name(), 0, '<module>'))
+    return out
+
+
+def check_undefined_names(ck, rule, mods):
+    n = 0
+    for mod in mods:
+        und = undefined_names(mod)
+        # locate the first read for the report
+        for name, fl, qual in und:
+            node = None
+            fn = mod.functions.get(qual)
+            for x in ast.walk(fn if fn is not None else mod.tree):
+                if isinstance(x, ast.Name) and x.id == name and isinstance(x.ctx, ast.Load):
+                    node = x
+                    break
+            ck.bad(rule, mod, node if node is not None else fn, qual, 'undefined name `%s`' % name,
+                   '`%s` is read in %s but bound nowhere in %s (no import, assignment, def or builtin of that name): '
+                   'NameError when this statement is reached' % (name, qual, mod.rel))
+        n += 1
+        if not und:
+            ck.ok(rule, mod, None, mod.rel, 'every global name read in the module is bound in it or is a builtin (symtable)')
+    return n
